@@ -101,6 +101,25 @@ def mutants(stmts, rng, quick):
                 w.text = " ".join(END_SWAP[two].split() + s.text.split()[2:])
                 out.append(("wrong_end_keyword:" + s.kind, "line %d %r -> %r" % (i + 1, s.text, w.text),
                             stmts[:i] + [w] + stmts[i + 1:]))
+    # ---- a construct name on an intermediate statement (ELSE, ELSE IF, CASE, type guard, ELSEWHERE) that is not
+    #      the name of its construct: the statement claims to belong to another construct (ill-nested)
+    for i, s in enumerate(stmts):
+        if s.role != "mid" or s.kind in ("contains", "type_contains"):
+            continue
+        op = [t for t in stmts if t.cid == s.cid and t.role == "open"]
+        if not op:
+            continue
+        words = s.text.split()
+        if op[0].name and words[-1] == op[0].name:
+            w = s.copy()
+            w.text = " ".join(words[:-1] + ["wrongN"])
+            out.append(("wrong_mid_name:" + s.kind, "line %d %r -> %r" % (i + 1, s.text, w.text),
+                        stmts[:i] + [w] + stmts[i + 1:]))
+        elif not op[0].name:
+            w = s.copy()
+            w.text = s.text + " extraN"
+            out.append(("surplus_mid_name:" + s.kind, "line %d %r -> %r" % (i + 1, s.text, w.text),
+                        stmts[:i] + [w] + stmts[i + 1:]))
     # (Outside the property as stated, hence not checked: a second ELSE / CASE DEFAULT / CONTAINS in one construct
     #  and ELSE before ELSE IF are accepted by the pinned parser.)
     # parentheses, per statement that has any: the first '(' and the last ')' deleted, each of them doubled,
